@@ -229,6 +229,12 @@ def main(repo, data_dir, out, order='f', mode='full'):
                         for lex in res['lexicons']:
                             rep = wn.validate.validate(lex, progress_handler=None)
                             t['validate:%s:%s' % (lx.specifier(), v)] = c(rep)
+                        for suffix in ('.gz', '.xz'):
+                            # a destination NAME is an argument like any other
+                            pz = os.path.join(tmp, 'z.xml' + suffix)
+                            wn.export([lx], pz, version=v)
+                            t['export%s:%s:%s' % (suffix, lx.specifier(), v)] = hashlib.sha256(
+                                open(pz, 'rb').read()).hexdigest()
                         p2 = os.path.join(tmp, 'y.xml')
                         wn.lmf.dump(res, p2)
                         t['dump:%s:%s' % (lx.specifier(), v)] = hashlib.sha256(
